@@ -4,6 +4,8 @@ Case shapes (all JSON-able through probe.jx / unjx):
   spend: {"k": "spend", "tx": txdict, "n_in": i, "spk": bytes, "amount": int, "flags": int, "src": str}
   eval:  {"k": "eval", "script": bytes, "stack": [bytes], "flags": int, "sv": 0|1, "src": str,
           "tx": txdict, "n_in": 0, "spk": bytes, "amount": int}
+         (+ "opm": [opcode, position] on the covering cases of the opcode matrix)
+  multi: {"k": "multi", "tx": txdict, "spks": [bytes], "amounts": [int], "flags": int, "src": str}
 """
 import hashlib
 import json
@@ -392,6 +394,8 @@ def corpus_mutations(rng, data_dir, n):
             src = "mut.wit"
         else:
             kind = rng.choice(["p2sh", "p2wsh", "p2sh-p2wsh"])
+            if rng.random() < 0.4:
+                spk = mutate_script(rng, spk)        # a mutated script as redeem / witness script
             w = wrap(rng, sig, spk, wit if not wit else [], kind) if not wit else None
             if w is None:
                 continue
@@ -420,30 +424,49 @@ EVAL_FLAGSETS = [0, RS.MINIMALDATA, RS.MINIMALIF, ALL_FLAGS, RS.DISCOURAGE_UPGRA
                  RS.NULLDUMMY | RS.NULLFAIL | RS.STRICTENC]
 
 
-def opcode_matrix(rng, opcodes, budget_per_opcode, as_initial_stack_ratio=0.5):
+def eval_flags(rng):
+    """the fixed single-script flag sets, and now and then an arbitrary permitted subset of the 16 flags"""
+    if rng.random() < 0.15:
+        return rand_flags(rng)
+    return rng.choice(EVAL_FLAGSETS)
+
+
+COVER_POSITIONS = ("exec", "dead_if", "dead_else")
+
+
+def opcode_matrix(rng, opcodes, budget_per_opcode, as_initial_stack_ratio=0.5, cover=False):
+    """with cover=True the first three cases of every opcode put it, in this order, in an executed position, in a dead IF branch
+    and in a dead ELSE branch, with its operands on the initial stack and a well-formed body, so that nothing can fail before
+    the opcode is reached; such cases carry "opm": [opcode, position]"""
     names = list(OPERANDS)
     for opcode in opcodes:
         ar = ARITY.get(opcode, 1)
-        for _ in range(budget_per_opcode):
+        for it in range(budget_per_opcode):
+            covering = cover and it < len(COVER_POSITIONS)
             k = rng.choice([ar, ar, ar, max(0, ar - 1), ar + 1])
             pool = SMALL_OPERANDS if rng.random() < 0.8 else names
             ops = [OPERANDS[rng.choice(pool)] for _ in range(k)]
-            flags = rng.choice(EVAL_FLAGSETS)
+            flags = eval_flags(rng)
             sv = rng.choice([0, 0, 1])
             pos = rng.choice(["exec", "exec", "exec", "dead_if", "dead_else", "nested_dead"])
+            if covering:
+                pos = COVER_POSITIONS[it]
             if opcode <= 0x4e:
                 # push opcodes: right / short / truncated-length data
                 if opcode < 0x4c:
-                    body = bytes([opcode]) + bytes(rng.randrange(256) for _ in range(rng.choice([opcode, opcode, max(0, opcode - 1), 0])))
+                    body = bytes([opcode]) + bytes(rng.randrange(256) for _ in range(opcode if covering else rng.choice([opcode, opcode, max(0, opcode - 1), 0])))
                 else:
                     width = {0x4c: 1, 0x4d: 2, 0x4e: 4}[opcode]
                     ln = rng.choice([0, 1, 2, 75, 76, 255, 256, 520, 521])
                     lenb = ln.to_bytes(width, "little") if ln < (1 << (8 * width)) else b"\xff" * width
                     lenb = lenb[:rng.choice([width, width, width, rng.randrange(width + 1)])]
                     body = bytes([opcode]) + lenb + (b"\x07" * rng.choice([ln, ln, max(0, ln - 1)]) if len(lenb) == width else b"")
+                    if covering:
+                        ln = min(ln, (1 << (8 * width)) - 1)
+                        body = bytes([opcode]) + ln.to_bytes(width, "little") + b"\x07" * ln
             else:
                 body = bytes([opcode])
-            if rng.random() < as_initial_stack_ratio:
+            if covering or rng.random() < as_initial_stack_ratio:
                 stack, pre = ops, b""
             else:
                 stack, pre = [], b"".join(push(o) for o in ops)
@@ -457,7 +480,51 @@ def opcode_matrix(rng, opcodes, budget_per_opcode, as_initial_stack_ratio=0.5):
                 script = pre + b"\x00\x63\x51\x63" + body + b"\x68\x68"
             if rng.random() < 0.3:
                 script += rng.choice([b"\x74", b"\x51", b"\x76", b"\x75", b"\x87", b"\x61"])
-            yield eval_case(rng, script, stack, flags, sv, "opmatrix.%s" % pos)
+            case = eval_case(rng, script, stack, flags, sv, "opmatrix.%s" % pos)
+            if covering:
+                case["opm"] = [opcode, pos]
+            yield case
+
+
+def minimal_push_matrix(rng):
+    """every push opcode x data class x {no flag, MINIMALDATA} x {executed, dead branch}: which encodings of a value count as
+    minimal (BIP62 rule 3) -- the empty string and the values 1..16 and -1 have an opcode of their own, up to 75 bytes the direct
+    push, up to 255 PUSHDATA1, up to 65535 PUSHDATA2 -- and that the rule is not applied to pushes that are not executed"""
+    datas = [b"", b"\x00", b"\x80", b"\x11", b"\x7f", b"\x82", b"\xff", b"\x01\x00", b"\x81\x00"] + [bytes([v]) for v in range(1, 17)] + [b"\x81"]
+    datas += [b"\x09" * n for n in (2, 74, 75, 76, 77, 254, 255, 256, 257, 519, 520)]
+    for data in datas:
+        n = len(data)
+        forms = [push_with(data, op) for op in (0x4c, 0x4d, 0x4e) if op != 0x4c or n <= 255]
+        if n <= 75:
+            forms.append(push_with(data, n))
+        forms.append(push(data))
+        for form in forms:
+            for flags in (0, RS.MINIMALDATA, ALL_FLAGS):
+                sv = rng.choice([0, 1])
+                yield eval_case(rng, form, [], flags, sv, "minpush.exec")
+                yield eval_case(rng, rng.choice([b"\x00\x63", b"\x51\x63\x51\x67"]) + form + b"\x68\x51", [], flags, sv, "minpush.dead")
+            # the same as a scriptSig push of a real spend
+            yield simple_spend(rng, form, b"\x82\x51\x87\x91", [], rng.choice([RS.MINIMALDATA, RS.MINIMALDATA | RS.P2SH, 0]), "minpush.spend")
+    # 65535 / 65536 bytes: over the element limit either way, reachable only through PUSHDATA2 / PUSHDATA4
+    for n in (65535, 65536):
+        for op in (0x4d, 0x4e):
+            if n < (1 << 16) or op == 0x4e:
+                for flags in (0, RS.MINIMALDATA):
+                    yield eval_case(rng, b"\x00\x63" + push_with(b"\x09" * n, op) + b"\x68\x51", [], flags, 0, "minpush.dead_huge")
+
+
+def der_flag_matrix(rng, keys):
+    """every DER form of a (valid) signature under each single encoding flag and under none, in P2PK with and without a trailing
+    NOT: DERSIG, LOW_S and STRICTENC each demand strict DER on their own (BIP66 / BIP62 / BIP146)"""
+    pub = keys.sec(1, True)
+    for tail in (b"\xac", b"\xac\x91"):
+        script = push(pub) + tail
+        for form in DER_FORMS:
+            for flags in (0, RS.DERSIG, RS.LOW_S, RS.STRICTENC):
+                tx = mk_tx(rng, b"", [], 600, 1, 0, 0xffffffff, 0, 1, 0)
+                sig = sig_blob(keys, 1, SH.legacy(tx, 0, script, 1), 1, form)
+                tx["ins"][0]["script"] = SH.push_data(sig)
+                yield spend(tx, script, 600, flags, "sig.der_flag")
 
 
 # ---------------------------------------------------------------------------------------------------
@@ -530,6 +597,36 @@ def limit_cases(rng):
               b"\x51\x63\x62\x68", b"\x00\x63\x6a\x68\x51", b"\x00\x63\x7e\x68\x51", b"\x00\x63\xba\x68\x51", b"\x00\x63\xff\x68\x51"):
         yield ev(s, src="limit.cond")
         yield ev(s, stack=[b"\x01"], src="limit.cond")
+
+
+def spend_limit_cases(rng):
+    """the size limits met through a whole spend: scriptSig / scriptPubKey of 9,999 / 10,000 / 10,001 bytes, a P2SH redeem script of
+    519 / 520 / 521 bytes (it has to be pushed), a witness stack item of 519 / 520 / 521 bytes under P2SH-P2WSH"""
+    def big_script(n):
+        # exactly n bytes, 20 counted operations, leaves [1]
+        body = b"\x51" + SH.push_data(b"\x01" * 500) * 19 + b"\x75" * 19
+        s = body + SH.push_data(b"\x02" * (n - len(body) - 4)) + b"\x75"
+        assert len(s) == n
+        return s
+    for n in (9999, 10000, 10001):
+        for flags in (0, RS.P2SH, RS.P2SH | RS.WITNESS):
+            yield simple_spend(rng, b"", big_script(n), [], flags, "limit.spend.spk_size")
+            yield simple_spend(rng, big_script(n), b"\x51", [], flags, "limit.spend.sig_size")
+    for n in (519, 520, 521):
+        redeem = SH.push_data(b"\x07" * (n - 5)) + b"\x75\x51"
+        assert len(redeem) == n
+        spk = b"\xa9\x14" + hash160(redeem) + b"\x87"
+        for flags in (RS.P2SH, 0, RS.P2SH | RS.WITNESS | RS.CLEANSTACK):
+            yield simple_spend(rng, SH.push_data(redeem), spk, [], flags, "limit.spend.redeem_size")
+        ws = b"\x75\x51"
+        prog = b"\x00\x20" + sha256(ws)
+        for flags in (RS.P2SH | RS.WITNESS, ALL_FLAGS):
+            yield simple_spend(rng, SH.push_data(prog), b"\xa9\x14" + hash160(prog) + b"\x87", [b"\x02" * n, ws], flags, "limit.spend.p2sh_p2wsh_item")
+    for n in (520, 521, 9999, 10000, 10001):
+        ws = big_script(n) if n > 9000 else SH.push_data(b"\x07" * (n - 5)) + b"\x75\x51"
+        prog = b"\x00\x20" + sha256(ws)
+        for flags in (RS.P2SH | RS.WITNESS, ALL_FLAGS):
+            yield simple_spend(rng, SH.push_data(prog), b"\xa9\x14" + hash160(prog) + b"\x87", [ws], flags, "limit.spend.p2sh_p2wsh_script_size")
 
 
 def witness_dispatch_cases(rng):
@@ -659,7 +756,7 @@ class SigGen:
             else:
                 script = push(pub) + b"\xac"
             wrapper = rng.choice(["bare", "bare", "p2sh", "p2wsh", "p2sh-p2wsh"]) if len(pub) <= 75 else "bare"
-            if tmpl == "p2pkh" and rng.random() < 0.3 and len(pub) == 33:
+            if tmpl == "p2pkh" and rng.random() < 0.3 and len(pub) in (33, 65):
                 wrapper = rng.choice(["p2wpkh", "p2sh-p2wpkh"])
             ht = rng.choice([1, 1, 1, 2, 3, 0x81, 0x82, 0x83, 0, 4, 0x41, 0x80, 0xff, rng.randrange(256)])
             form = rng.choice(["strict"] * 6 + DER_FORMS)
@@ -669,7 +766,9 @@ class SigGen:
                 sov = rng.choice([C.n // 2, C.n // 2 + 1, C.p // 2, C.p // 2 + 1, C.n - 1, 0, C.n])
             flags = rand_flags(rng)
             amount = rng.choice([0, 1, 100000, 21 * 10 ** 14])
-            version, lock_time, sequence = rng.choice([1, 2]), rng.choice([0, 17]), rng.choice([0xffffffff, 0xfffffffe, 0])
+            version = rng.choice([1, 2, 1, 2, 0, 0xffffffff, 0x80000002])
+            lock_time = rng.choice([0, 17, 0, 17, 499999999, 500000000, 0xffffffff])
+            sequence = rng.choice([0xffffffff, 0xfffffffe, 0, 0xffffffff, 0xfffffffe, 0, (1 << 31) | 3, (1 << 22) | 5])
             extra_ins, n_outs, n_in = rng.choice([0, 0, 1, 2]), rng.choice([1, 1, 2, 0]), 0
             if extra_ins:
                 n_in = rng.randrange(extra_ins + 1)
@@ -838,7 +937,7 @@ def boundary_s_cases(rng, keys):
                             yield spend(tx, b"\x00\x20" + sha256(script), 1000, fix_flags(flags | RS.WITNESS), "sig.boundary_s.p2wsh")
 
 
-def nullfail_matrix(rng, keys):
+def nullfail_matrix(rng, keys, wrappers=("bare", "p2wsh")):
     """m-of-n CHECKMULTISIG with every pattern of valid / empty / wrong signatures, with and without a trailing NOT,
     under NULLFAIL and without it: a failed operation requires ALL signatures to be empty, matched ones included"""
     import itertools
@@ -847,7 +946,7 @@ def nullfail_matrix(rng, keys):
         pubs = [keys.sec(k, True) for k in kidx]
         for tail in (b"\xae", b"\xae\x91", b"\xaf\x51"):
             script = num(m) + b"".join(push(p) for p in pubs) + num(nkeys) + tail
-            for wrapper in ("bare", "p2wsh"):
+            for wrapper in wrappers:
                 for pattern in itertools.product("VEW", repeat=m):
                     for flags in (RS.NULLFAIL, RS.NULLFAIL | RS.P2SH | RS.WITNESS | RS.NULLDUMMY, 0, ALL_FLAGS & ~RS.CLEANSTACK):
                         if wrapper == "p2wsh":
@@ -1022,6 +1121,8 @@ def locktime_cases(rng, n):
         spk = push(enc) + bytes([op]) + rng.choice([b"", b"\x75\x51", b"\x87"[:0]])
         flags = rng.choice([RS.CHECKLOCKTIMEVERIFY | RS.CHECKSEQUENCEVERIFY, RS.CHECKLOCKTIMEVERIFY, RS.CHECKSEQUENCEVERIFY, 0,
                             RS.DISCOURAGE_UPGRADABLE_NOPS, ALL_FLAGS & ~RS.CLEANSTACK, RS.CHECKLOCKTIMEVERIFY | RS.CHECKSEQUENCEVERIFY | RS.MINIMALDATA])
+        if rng.random() < 0.15:
+            flags = rand_flags(rng) & ~RS.CLEANSTACK
         tx = CT.credit_spend(b"", spk, [], 0, version=ver, lock_time=tx_lt, sequence=seq)
         yield spend(tx, spk, 0, flags, "locktime.%s" % ("cltv" if op == 0xb1 else "csv"))
 
@@ -1131,4 +1232,12 @@ def random_scripts(rng, n):
             yield eval_case(rng, s, [OPERANDS[rng.choice(SMALL_OPERANDS)] for _ in range(rng.randrange(0, 4))], flags, rng.choice([0, 1]), "random.eval")
         else:
             sig = b"".join(push(OPERANDS[rng.choice(SMALL_OPERANDS)]) for _ in range(rng.randrange(0, 3)))
-            yield simple_spend(rng, sig, s, [], fix_flags(flags & ~RS.CLEANSTACK) if rng.random() < 0.7 else rand_flags(rng), "random.spend")
+            flags = fix_flags(flags & ~RS.CLEANSTACK) if rng.random() < 0.7 else rand_flags(rng)
+            if rng.random() < 0.3:
+                # the same random bytes as a redeem script / witness script
+                kind = rng.choice(["p2sh", "p2wsh", "p2sh-p2wsh"])
+                w = wrap(rng, sig, s, [], kind)
+                if w is not None:
+                    yield simple_spend(rng, w[0], w[1], w[2], fix_flags(flags | RS.P2SH | (RS.WITNESS if kind != "p2sh" else 0)), "random.wrapped." + kind)
+                    continue
+            yield simple_spend(rng, sig, s, [], flags, "random.spend")
